@@ -1,7 +1,7 @@
 //! C18 correspondence harness: calls the live CpuContext / MinidumpContext methods.
 //!   <variant> <name> <validity> <value> [<context_flags>|- [<fill>]]
 //! variant: MinidumpRawContext variant (X86 Ppc Ppc64 Amd64 Sparc Arm Arm64 OldArm64 Mips)
-//! name: register name, `-` for the empty string
+//! name: register name, `-` for the empty string, `~` stands for a space
 //! validity: `A` (All) or `S:<n1>,<n2>,...` (Some(set); `S:` is the empty set; `-` = empty name)
 //! value: decimal, below 2^width
 //! context_flags: decimal; written into the context's `context_flags` field (truncated to its width)
@@ -45,7 +45,7 @@ fn name_of(t: &str) -> String {
     if t == "-" {
         String::new()
     } else {
-        t.to_string()
+        t.replace('~', " ")
     }
 }
 
